@@ -1017,4 +1017,85 @@ def c17(ctx):
     ctx.coverage["hash_seeds"] = seeds
 
 
-TABLE = {"C06": c06, "C19": c19, "C14": c14, "C15": c15, "C16": c16, "C17": c17}
+# ----------------------------------------------------------------------------------------
+# C13: determinism across processes
+
+
+def _c13_probe(payload):
+    import subprocess
+    import sys
+    hs, mode, cases, pseed = payload
+    env = dict(os.environ, PYTHONHASHSEED=str(hs), PYTHONPATH=jsl.REPO, JSL_REPO=jsl.REPO)
+    p = subprocess.run([sys.executable, str(jsl.VERIF) + "/harness/c13_probe.py"],
+                       input=json.dumps({"mode": mode, "cases": cases, "probe_seed": pseed}),
+                       capture_output=True, text=True, env=env, cwd=jsl.REPO, timeout=1200)
+    line = next((l for l in p.stdout.splitlines() if l.startswith("@@")), None)
+    if line is None:
+        raise RuntimeError("C13 probe failed: " + p.stderr[-800:])
+    return json.loads(line[2:])
+
+
+def c13(ctx):
+    rng = random.Random(ctx.seed + 13)
+    n = 10 if ctx.quick() else 60
+    cases = []
+    for k in range(n):
+        prof = ["classic", "transport", "full", "stoch", "stoch", "buffers"][k % 6]
+        d, feats = gen.gen_instance(rng, prof)
+        acts = [1 if rng.random() < 0.8 else 0 for _ in range(rng.randint(5, 60))]
+        cases.append({"dsl": d, "cfg": {"early": rng.random() < 0.6, "trunc_active": False},
+                      "seed": rng.randint(0, 1000), "actions": acts, "resets": rng.choice([0, 1, 2]),
+                      "stochastic": prof == "stoch"})
+    # deterministic instances additionally with another seed: the outcome must not depend on the seed at all
+    variants = []
+    for c in cases:
+        if not c["stochastic"]:
+            c2 = dict(c)
+            c2["seed"] = c["seed"] + 991
+            variants.append(c2)
+    probes = [(0, "plain", cases, 1), (1, "plain", cases, 1), (4242, "polluted", cases, 2), (31337, "interleaved", cases, 3),
+              (7, "polluted", cases, 4)]
+    if not ctx.quick():
+        probes += [(99991, "interleaved", cases, 5), (2, "plain", cases, 6), (123, "polluted", cases, 7)]
+    probes.append((5, "plain", variants, 8))
+    res = _pool_map(_c13_probe, probes)
+    base = res[0]
+    nsteps = 0
+    for k, c in enumerate(cases):
+        nsteps += len(base[k])
+        if base[k] and (base[k][0].startswith("error") or base[k][0] == "unsupported"):
+            continue
+        for (hs, mode, _, _), r in zip(probes[1:-1], res[1:-1]):
+            if r[k] != base[k]:
+                first = next((q for q, (a, b) in enumerate(zip(r[k], base[k])) if a != b), min(len(r[k]), len(base[k])))
+                ctx.viol("determinism:differs", "same configuration, seed and actions give a different episode in another "
+                         "process (PYTHONHASHSEED=%s, mode=%s) from position %d on" % (hs, mode, first),
+                         {"case": c, "hash_seed": hs, "mode": mode, "first_difference": first,
+                          "reference": base[k][:first + 2], "other": r[k][:first + 2]},
+                         facts={"mode": mode, "stochastic": c["stochastic"]})
+                break
+    vi = 0
+    for k, c in enumerate(cases):
+        if c["stochastic"]:
+            continue
+        r = res[-1][vi]
+        vi += 1
+        if r != base[k] and not (r and r[0].startswith("error")):
+            ctx.viol("determinism:seed_dependent", "a deterministic instance gives a different episode with another seed",
+                     {"case": c}, facts={"stochastic": False})
+    ctx.coverage.update({
+        "evaluations": nsteps * (len(probes) - 1), "distinct_nontrivial": nsteps,
+        "rule": "one evaluation = one step digest (serialized state + observation + reward + flags) of an episode replayed "
+                "in a fresh interpreter: %d cases x %d interpreters with different PYTHONHASHSEED, with the global "
+                "random/numpy/torch generators consumed beforehand and between resets ('polluted'), and with a second "
+                "environment stepped in between ('interleaved'); deterministic instances additionally with another seed"
+                % (len(cases), len(probes)),
+        "traces_validated_against_impl": len(cases) * (len(probes) - 1), "cases": len(cases),
+        "interpreters": [(p[0], p[1]) for p in probes], "stochastic_cases": sum(1 for c in cases if c["stochastic"]),
+    })
+    ctx.samples.append({"case": {k: v for k, v in cases[0].items() if k != "dsl"}, "digests": base[0][:4]})
+    ctx.assumptions.append("numpy/torch generators are assumed to be functions of their seed; interpreter hash randomisation "
+                           "and object sharing are exercised by the cross-process runs, not proved")
+
+
+TABLE = {"C06": c06, "C19": c19, "C14": c14, "C15": c15, "C16": c16, "C17": c17, "C13": c13}
